@@ -15,6 +15,7 @@ from ..gen import tlvals as V
 from ..translate import tl_table as TT
 from ..translate import arith2
 from . import c14_hist
+from ..translate import tlengine as TE
 
 SPEC = dict(
     manifest=dict(
@@ -40,18 +41,33 @@ SPEC = dict(
              "of 4 on serialising (c14_src_frame_tests), and on parsing the FE test, the declared length, the header size and the skip over content "
              "and padding (c14_src_read_tests) are proved for ALL lengths / inputs / offsets, the hand model's frame / readFrame are proved to be "
              "exactly their composition (c14_src_model_frame, c14_src_model_read), and the guard `length > len(data) - i` over Python ints is proved "
-             "to be the model's test on the remaining input (c14_src_vector_guard).",
+             "to be the model's test on the remaining input (c14_src_vector_guard). "
+             "The SERIALISING ENGINE is regenerated as whole methods (Generated/TlEngine.lean, translator pydyn.py): TlSchemas.base_types, "
+             "TlSchema.little_id, TlSchemas.serialize_field and TlSchemas.serialize become Lean functions over dynamically typed values, the "
+             "records of the regenerated table and classified type strings, with open recursion tied by an explicit depth budget; Lean proves "
+             "for ALL tables, constructors, values (well typed or not) and budgets that they equal the hand model's serObj / serArg "
+             "(c14_src_serializer: isinstance dispatch, signed / unsigned `#`, the 253/254 framing boundary and padding, the OverflowError from "
+             "2^24 bytes on, flags-conditional fields, vectors, bare vs boxed writing of the id, every raise), so c14_wire holds of the "
+             "regenerated code (c14_src_wire) and the framing lemma of the regenerated serialize_field for every content (c14_src_string_lengths). "
+             "BlockIdExt.__init__ / to_bytes / from_bytes / __eq__ / __hash__ of tl/block.py are regenerated the same way and proved equal to the "
+             "model's toBytes / fromBytes / pyEq / pyHash for all ids, so the byte round trip and eq => same hash hold of the regenerated code "
+             "(c14_src_blockid).",
         level_note='Trusted: Lean kernel (propext, Classical.choice, Quot.sound), Spec/Tl.lean as the TL format, the table translator '
                    '(harness/translate/tl_table.py), the hand model Model/Tl.lean (tied by sampled correspondence, not by proof), Python '
+                   'for the serialiser the hand model is now PROVED equal to the regenerated methods (trusted instead: the translator pydyn.py/pyobj.py, '
+                   'PyTl.lean as the meaning of the Python operations, and the declared interface of tlengine.py: schema objects = table records, '
+                   'type-string tests = their classification, fuel = recursion depth; validated against the library on ~4000 calls per change); '
+                   'the parser (deserialize) model remains tied by sampled correspondence + the framing / guard lines. '
                    'str.encode/decode = strict UTF-8, bytes.fromhex/hex inverse, tuple hash. Fuel = recursion depth: theorems hold for every '
                    'sufficiently large depth budget; normalize carries the same budget (its re-parses are the model parser on the content) and '
                    'is shown to be budget-independent from tlFuel on for tables without bare cycles; Python\'s own recursion limit is not '
                    'modelled. The vector rule of the spec asks for count <= encoded length; shown to follow from the element types for every bundled vector field.',
-        technique='Lean 4 proof (hand model generic in a schema table regenerated from source) + differential correspondence with the library '
-                  '+ source-regenerated framing arithmetic',
+        technique='Lean 4 proof (hand model generic in a schema table regenerated from source; serialiser methods regenerated from source and proved '
+                  'equal to the hand model for all inputs) + differential correspondence with the library + source-regenerated framing arithmetic',
     ),
     translators=[('tl schemas->Generated/TlTable.lean', TT.regenerate),
-                 ('tl/generator.py bytes framing + vector guard->Generated/TlFraming.lean', arith2.regenerator('TlFraming'))],
+                 ('tl/generator.py bytes framing + vector guard->Generated/TlFraming.lean', arith2.regenerator('TlFraming')),
+                 ('tl/generator.py serialiser methods + tl/block.py BlockIdExt->Generated/TlEngine.lean', TE.regenerate)],
     design_ref='DESIGN.md §6 C14',
     rule='for every covered constructor >= 3 type-directed random canonical values (boundary-biased ints, strings/bytes at lengths '
          '{0..4,252..257,65535 (thorough 2^24-1)} plus a sweep of every length 0..300, nested/polymorphic objects to depth 3, vectors of '
@@ -61,7 +77,9 @@ SPEC = dict(
          'foreign tails, empty, nesting to depth 3, with an independently computed expected result; strings starting with a registered '
          'id must raise), damaged inputs (model vs library only) and BlockId/BlockIdExt helpers; distinct = distinct (constructor, value); '
          'non-trivial = the constructor has at least one field',
-    trusted_base=['harness/translate/tl_table.py (table generator, replays the type tests of serialize_field/deserialize)',
+    lean_targets=['TonVerif.Proofs.SrcTlEngine'],
+    trusted_base=['harness/translate/pydyn.py + pyobj.py + tlengine.py (methods of the TL engine -> Lean; declared interface) and lean/TonVerif/PyTl.lean (meaning of the dynamic-value / type-string / to_bytes operations)',
+                  'harness/translate/tl_table.py (table generator, replays the type tests of serialize_field/deserialize)',
                   'Spec/Tl.lean is the TL binary format', 'Model/Tl.lean mirrors generator.py/block.py by hand',
                   'harness/translate/pyarith.py + arith.py/arith2.py and lean/TonVerif/PyBytes.lean + PyBytes2.lean (Python statements / bytes operations -> Lean) for the c14_src_* theorems',
                   'harness/gen/tlvals.py: generators, independent encoder, token syntax'],
@@ -550,6 +568,23 @@ def src_search(ctx, W, B):
     round trip on the library) before anything else.  True = a concrete failing input was found."""
     arith2.search_points(ctx, ['TlFraming'])
     n0 = len(ctx.failures)
+    # regenerated serialiser vs hand model, evaluated by Lean on type-directed values of every covered constructor (all flag combinations of
+    # small constructors, vectors of 0/1/many, strings around 253/254): the differing values go through the oracle first
+    rng = ctx.rng
+    pairs = []
+    for c in [c for c in W.ctors if W.covered(c)]:
+        conds = V.cond_bits(c)
+        combos = list(itertools.product([False, True], repeat=len(conds))) if 0 < len(conds) <= 3 else [None]
+        for k, combo in enumerate(combos + [None, None]):
+            o = {'depth': 2, 'big': False, 'lens': [0, 1, 3, 252, 253, 254, 255, 256, 257]}
+            if k == 1:
+                o['veclen'] = 0
+            pairs.append((c, V.gen_obj(W, rng, c, 0, o, combo=combo)))
+    for c, v in TE.diff_values(ctx, W, pairs)[:40]:
+        check_value(ctx, W, B, c, v, 'source-diff')
+    B.flush()
+    if len(ctx.failures) > n0:
+        return True
     string_sweep(ctx, W, B)
     B.flush()
     return len(ctx.failures) > n0
